@@ -114,6 +114,14 @@ def c14(res, tier, a):
     m.run(res, tier, a, "C14")
 
 
+def c18(res, tier, a):
+    from checks import c18 as m
+    with Scratch(slot()) as sc:
+        ws.inject(sc)
+        drv = ws.Driver(ws.build_driver(sc))
+        m.run(res, tier, sc, drv)
+
+
 def c17(res, tier, a):
     from checks import c17 as m
     m.run(res, tier, a)
@@ -123,6 +131,7 @@ CHECKS = {
     "C05": ("model_checking", c05),
     "C14": ("model_checking", c14),
     "C17": ("model_checking", c17),
+    "C18": ("model_checking", c18),
     "C04": ("model_checking", c04),
     "C06": ("model_checking", c06),
     "C07": ("other", c07),
